@@ -1855,4 +1855,145 @@ impl core::fmt::Debug for GlyphBuffer {
 #[allow(unused_imports, dead_code, missing_docs)]
 pub mod verif_hooks {
     use super::*;
+
+    /// glyph_id, mask, cluster, var1, var2
+    pub type RawInfo = [u32; 5];
+
+    /// The part of `hb_buffer_t` that the buffer primitives read or write.
+    #[derive(Clone, Debug, Default)]
+    pub struct State {
+        pub info: Vec<RawInfo>,
+        /// the `pos` Vec viewed as glyph infos (what `out_info()` aliases in separate-output mode)
+        pub out: Vec<RawInfo>,
+        pub idx: usize,
+        pub len: usize,
+        pub out_len: usize,
+        pub have_output: bool,
+        pub have_separate_output: bool,
+        pub have_positions: bool,
+        pub successful: bool,
+        pub cluster_level: u32,
+        pub flags: u32,
+        pub scratch_flags: u32,
+        pub max_len: usize,
+        pub max_ops: i32,
+        pub serial: u8,
+    }
+
+    fn to_info(r: &RawInfo) -> hb_glyph_info_t {
+        hb_glyph_info_t {
+            glyph_id: r[0],
+            mask: r[1],
+            cluster: r[2],
+            var1: r[3],
+            var2: r[4],
+        }
+    }
+
+    fn from_info(i: &hb_glyph_info_t) -> RawInfo {
+        [i.glyph_id, i.mask, i.cluster, i.var1, i.var2]
+    }
+
+    pub fn make(st: &State) -> hb_buffer_t {
+        let mut b = hb_buffer_t::new();
+        b.info = st.info.iter().map(to_info).collect();
+        b.pos = st
+            .out
+            .iter()
+            .map(|r| bytemuck::cast::<hb_glyph_info_t, GlyphPosition>(to_info(r)))
+            .collect();
+        b.idx = st.idx;
+        b.len = st.len;
+        b.out_len = st.out_len;
+        b.have_output = st.have_output;
+        b.have_separate_output = st.have_separate_output;
+        b.have_positions = st.have_positions;
+        b.successful = st.successful;
+        b.cluster_level = st.cluster_level;
+        b.flags = BufferFlags::from_bits_retain(st.flags);
+        b.scratch_flags = st.scratch_flags;
+        b.max_len = st.max_len;
+        b.max_ops = st.max_ops;
+        b.serial = st.serial;
+        b
+    }
+
+    pub fn dump(b: &hb_buffer_t) -> State {
+        State {
+            info: b.info.iter().map(from_info).collect(),
+            out: b
+                .pos
+                .iter()
+                .map(|p| from_info(&bytemuck::cast::<GlyphPosition, hb_glyph_info_t>(*p)))
+                .collect(),
+            idx: b.idx,
+            len: b.len,
+            out_len: b.out_len,
+            have_output: b.have_output,
+            have_separate_output: b.have_separate_output,
+            have_positions: b.have_positions,
+            successful: b.successful,
+            cluster_level: b.cluster_level,
+            flags: b.flags.bits(),
+            scratch_flags: b.scratch_flags,
+            max_len: b.max_len,
+            max_ops: b.max_ops,
+            serial: b.serial,
+        }
+    }
+
+    /// Runs one primitive by name. `a` are its integer arguments, `infos` glyph data where needed.
+    /// Returns `None` for an unknown primitive, `Some(ret)` otherwise (`ret` = 0/1 for bool results, else 1).
+    pub fn op(b: &mut hb_buffer_t, name: &str, a: &[u64], infos: &[RawInfo]) -> Option<u64> {
+        let u = |i: usize| a.get(i).copied().unwrap_or(0) as usize;
+        let opt = |i: usize| a.get(i).map(|x| *x as usize);
+        let mut ret = 1u64;
+        match name {
+            "next" => b.next_glyph(),
+            "nexts" => b.next_glyphs(u(0)),
+            "skip" => b.skip_glyph(),
+            "copy" => b.copy_glyph(),
+            "repl" => b.replace_glyph(u(0) as u32),
+            "repls" => {
+                let g: Vec<u32> = a[1..].iter().map(|x| *x as u32).collect();
+                b.replace_glyphs(u(0), g.len(), &g)
+            }
+            "outg" => b.output_glyph(u(0) as u32),
+            "outi" => b.output_info(to_info(infos.first()?)),
+            "del" => b.delete_glyph(),
+            "merge" => b.merge_clusters(u(0), u(1)),
+            "mergeout" => b.merge_out_clusters(u(0), u(1)),
+            "moveto" => ret = b.move_to(u(0)) as u64,
+            "sync" => ret = b.sync() as u64,
+            "clearout" => b.clear_output(),
+            "utb" => b.unsafe_to_break(Some(u(0)), opt(1)),
+            "utbo" => b.unsafe_to_break_from_outbuffer(Some(u(0)), opt(1)),
+            "utc" => b.unsafe_to_concat(Some(u(0)), opt(1)),
+            "utco" => b.unsafe_to_concat_from_outbuffer(Some(u(0)), opt(1)),
+            "tatweel" => b.safe_to_insert_tatweel(Some(u(0)), opt(1)),
+            "rev" => b.reverse(),
+            "revr" => b.reverse_range(u(0), u(1)),
+            "revg" => b.reverse_groups(_cluster_group_func, u(0) != 0),
+            "sort" => b.sort(u(0), u(1), |x, y| x.var1 > y.var1),
+            "delin" => b.delete_glyphs_inplace(|x| x.var2 == 1),
+            "setmasks" => b.set_masks(u(0) as u32, u(1) as u32, u(2) as u32, u(3) as u32),
+            "resetmasks" => b.reset_masks(u(0) as u32),
+            "ensure" => ret = b.ensure(u(0)) as u64,
+            "room" => ret = b.make_room_for(u(0), u(1)) as u64,
+            "shiftfwd" => b.shift_forward(u(0)),
+            "enter" => b.enter(),
+            "leave" => b.leave(),
+            "clear" => b.clear(),
+            "add" => b.add(u(0) as u32, u(1) as u32),
+            _ => return None,
+        }
+        Some(ret)
+    }
+
+    pub fn produce_flags() -> (u32, u32) {
+        (
+            BufferFlags::PRODUCE_UNSAFE_TO_CONCAT.bits(),
+            BufferFlags::PRODUCE_SAFE_TO_INSERT_TATWEEL.bits(),
+        )
+    }
 }
